@@ -294,6 +294,7 @@ def run(F, res, tier):
     accessor_rules(F, res, pure, kinds)
     slot_coverage(F, res, pure, kinds)
     literal_lexemes(F, res, R)
+    blanks_are_trivia(F, res, R)
     delimiters_belong_to_their_node(F, res)
 
 
@@ -533,6 +534,56 @@ def literal_lexemes(F, res, R):
     best2 = munch("0.name")
     res.ob("G6", "adjacent/tuple-index-then-field", "in `t.0.name` the text `0.` is lexed as INTEGER then `.`", ti and best2 == ("INTEGER", 1),
            where="crates/syntax/src/kind.rs", how="longest match at `0.name`: %s (%d characters)" % best2)
+
+
+# what Gleam's lexer skips between tokens: blanks, tabs, line feeds and the carriage return of a CRLF line end
+BLANK_LEXEMES = [" ", "\t", "\n", "\r\n", "  \r\n\t "]
+
+
+def blanks_are_trivia(F, res, R, rule="G8"):
+    """G8: "arbitrary legal whitespace": every blank Gleam allows between tokens is consumed by a trivia token of this lexer
+    (maximal munch over the #[regex] table; the kinds in the trivia range come from engine T's tabulation of is_trivia). A blank
+    the table does not know becomes an ERROR token, which is not trivia: the parser sees it and a well-formed program - any file
+    saved with CRLF line ends, when parsed without the server's normalisation - is reported full of errors."""
+    import re as _re
+    la = R["lex_attrs"]
+    pats = {}
+    for kind, attrs in la.items():
+        for a in attrs:
+            m = _re.search(r'#\[regex\(\s*r?#*"(.*)"#*\s*(?:,.*)?\)\]$', a)
+            if m:
+                pats.setdefault(kind, []).append(m.group(1).replace("\\\\", "\\"))
+    trivia = set(R.get("trivia_kinds") or [])
+    if not trivia:
+        from lib import teval as TE
+        pure = TE.Pure(F)
+        SK = "syntax::kind::SyntaxKind"
+        for k in F.variants(SK):
+            try:
+                if pure.call("syntax::kind::SyntaxKind::is_trivia", [("e", SK, k)]) == 1:
+                    trivia.add(k)
+            except Exception:  # noqa
+                pass
+    for lx in BLANK_LEXEMES:
+        pos, kinds, ok = 0, [], True
+        while pos < len(lx):
+            best = (None, 0)
+            for kind, ps in pats.items():
+                for p_ in ps:
+                    try:
+                        m = _re.match(p_, lx[pos:])
+                    except _re.error:
+                        continue
+                    if m and len(m.group(0)) > best[1]:
+                        best = (kind, len(m.group(0)))
+            if best[0] is None or best[0] not in trivia:
+                ok = False
+                kinds.append(best[0] or "ERROR at %r" % lx[pos])
+                break
+            kinds.append(best[0])
+            pos += best[1]
+        res.ob(rule, "blank/%s" % lx.encode("unicode_escape").decode(), "the blank %r is lexed as trivia" % lx, ok and bool(trivia),
+               where="crates/syntax/src/kind.rs", how="tokens: %s" % kinds)
 
 
 def delimiters_belong_to_their_node(F, res, rule="G7"):
